@@ -337,4 +337,13 @@ example : gortReserve tempMappingAddrW 5000#64 = some (tempMappingAddrW - 8192#6
 example : gortReserve tempMappingAddrW (BitVec.ofNat 64 (2^64-1)) = none := by decide
 example : (gortMap 0x1234#64 4097#64 0x77#64 none).2.length = 2 := by decide
 
+/-- **single_cursor_writer** — the history theorems (`disjoint_history`, `no_overlap`) thread the
+cursor through `earlyReserve` only: nothing else moves it. On the Go side that is a fact about the
+source of package vmm, regenerated on every run (`Gen.C07.cursorWriters`, read off the AST): the only
+function that assigns, increments or takes the address of `earlyReserveLastUsed` is
+`EarlyReserveRegion`. (A second writer — e.g. the switch to the kernel address space iterating with
+the cursor itself — breaks this theorem; the search then runs reservation histories across the real
+`setupPDTForKernel`, clause `setup-keeps-reservations`.) -/
+theorem single_cursor_writer : Firefly.Gen.C07.cursorWriters = ["EarlyReserveRegion"] := by decide
+
 end Firefly.C07
